@@ -90,7 +90,11 @@ where
         let mut job_broker = JobBroker::new(thread_count, close_at);
         job_broker.push(pending);
 
+        #[cfg(getong_stateright_verif)]
+        let verif_ctx = crate::verif_hooks::spawn_ctx();
         for t in 0..thread_count {
+            #[cfg(getong_stateright_verif)]
+            let verif_ctx = verif_ctx.clone();
             let model = Arc::clone(&model);
             let visitor = Arc::clone(&visitor);
             let finish_when = Arc::clone(&finish_when);
@@ -104,6 +108,10 @@ where
                 std::thread::Builder::new()
                     .name(format!("checker-{}", t))
                     .spawn(move || {
+                        #[cfg(getong_stateright_verif)]
+                        let _verif_worker = crate::verif_hooks::enter_worker(&verif_ctx, t);
+                        #[cfg(getong_stateright_verif)]
+                        let mut job_broker = job_broker;
                         log::debug!("{}: Thread started.", t);
                         let mut pending = VecDeque::new();
                         loop {
@@ -158,6 +166,8 @@ where
                             }
 
                             // Step 2: Share work.
+                            #[cfg(getong_stateright_verif)]
+                            crate::verif_hooks::yield_point("dfs.before_share");
                             if pending.len() > 1 && thread_count > 1 {
                                 job_broker.split_and_push(&mut pending);
                             }
@@ -195,7 +205,11 @@ where
 
         let mut current_max_depth = global_max_depth.load(Ordering::Relaxed);
         let mut actions = Vec::new();
+        #[cfg(getong_stateright_verif)]
+        let mut max_count = crate::verif_hooks::block_size(max_count);
         loop {
+            #[cfg(getong_stateright_verif)]
+            crate::verif_hooks::yield_point("dfs.block_iteration");
             // Done if reached max count.
             if max_count == 0 {
                 return;
@@ -297,6 +311,8 @@ where
                     continue;
                 }
                 state_count.fetch_add(1, Ordering::Relaxed);
+                #[cfg(getong_stateright_verif)]
+                crate::verif_hooks::yield_point("dfs.before_insert");
 
                 // Skip if already generated.
                 //
